@@ -397,6 +397,22 @@ fn main() {
                 }
             }
         }
+        // scale: lengths and indices at and around 127/128 and 255/256 (where a narrowed index type would wrap or saturate)
+        let edge: [isize; 18] = [0, 1, -1, 2, 126, 127, 128, 129, 254, 255, 256, 257, -127, -128, -129, -255, -256, -257];
+        for len in [255, 256, 257, 300] {
+            for l in edge {
+                for r in edge {
+                    if mine(&mut id) {
+                        prog.mark(id, &format!("slice len={} l={} r={}", len, l, r));
+                        out.rec(&rec_slice(len, l, r));
+                    }
+                }
+                if mine(&mut id) {
+                    prog.mark(id, &format!("drop len={} n={}", len, l));
+                    out.rec(&rec_drop(len, l));
+                }
+            }
+        }
         // first .. consume: every sequence over three values up to length 3 (4 in the thorough tier)
         for s in all_seqs(&[7, 8, 9], if thorough { 4 } else { 3 }) {
             if mine(&mut id) {
